@@ -51,6 +51,12 @@ def recheck(name, props):
 def main():
     if sys.argv[1] == '--recheck':
         return recheck(sys.argv[2], sys.argv[3:])
+    file_only = False
+    if sys.argv[1] == '--file-only':
+        # confirm in the worktree and file under seeded/<id>/ without touching /repo: the checks are then run on scratch
+        # copies by tools/seeded_recheck_all.py <id>
+        file_only = True
+        del sys.argv[1]
     wt, k, pid = sys.argv[1:4]
     run_props = [pid] + sys.argv[4:]
     patch = os.path.join(wt, 'patch%s.diff' % k)
@@ -78,6 +84,9 @@ def main():
     ok_suite = bool(m) and int(m.group(2)) == 219 and int(m.group(1)) == 10
     meta['confirmed'] = bool(ok_suite and rc0 == 0 and rc1 != 0)
     print(name, 'suite:', meta['suite_with_change'], '| demo without:', rc0, 'with:', rc1, '| confirmed:', meta['confirmed'])
+    if file_only:
+        meta['checks'] = {}
+        return finish(name, patch, demo, meta)
     # 2. run the checks against it in /repo
     rc, out = sh('git -C /repo apply --check %s' % patch)
     if rc != 0:
